@@ -71,6 +71,7 @@ func NewWorkerLoop(
 func (lh *WorkerLoop) Run(ctx context.Context) {
 	lh.logger.Debug("LHFLOW LHMSG WORKERLOOP START LISTENING NOW")
 	for {
+		verifWorkerIdle(lh)
 		select {
 		case <-ctx.Done(): // system shutdown
 			lh.logger.Info("LHFLOW WORKERLOOP DONE STOPPED LISTENING, SHUTDOWN START")
